@@ -4,4 +4,4 @@ CONSTANTS NC = 3
   MaxVal = 4
   GenDepth = 0
 INVARIANTS OneEntryPerClass LiveNotDead Counted DisplacedDestroyed
-PROPERTIES PutAtBack
+PROPERTIES PutAtBack PutAgainAtBack
